@@ -37,7 +37,7 @@ func init() {
 			}
 			return 16 * c12Kinds
 		},
-		CaseTimeout: 300 * time.Second,
+		CaseTimeout: 90 * time.Second,
 		Finalize: func(a *fw.Agg) {
 			if a.Counters["executions_with_inversion"] == 0 {
 				a.Inconclusive = append(a.Inconclusive, "RUN: no completion-order inversion was observed at any hook site; the jitter did not perturb the schedule")
